@@ -61,6 +61,10 @@ type Prior struct {
 	Fmt  string `json:"fmt"` // "v1", "gob", "garbage"
 	// Raw values (not abstract) if RawVals is set: S,T,Slot are taken literally (may be -1).
 	RawVals bool `json:"raw,omitempty"`
+	// Concrete int64 values as decimal strings; override S/T/Slot when non-empty.
+	SV    string `json:"sv,omitempty"`
+	TV    string `json:"tv,omitempty"`
+	SlotV string `json:"slotv,omitempty"`
 }
 
 // Scenario is one run.
@@ -244,12 +248,30 @@ func (r *Runner) writePriors(ctx context.Context, dir string, b *Base, priors []
 		if pk == nil {
 			return fmt.Errorf("prior: unknown key %d", p.K)
 		}
-		val := func(a int) int64 {
+		val0 := func(a int) int64 {
 			if p.RawVals {
 				return int64(a)
 			}
 			return int64(r.cv(a))
 		}
+		lit := func(sv string, a int) int64 {
+			if sv != "" {
+				v, err := strconv.ParseInt(sv, 10, 64)
+				if err == nil {
+					return v
+				}
+			}
+			return val0(a)
+		}
+		val := func(a int) int64 {
+			switch a {
+			case p.S:
+				return lit(p.SV, a)
+			}
+			return val0(a)
+		}
+		_ = val
+		sVal, tVal, slotVal := lit(p.SV, p.S), lit(p.TV, p.T), lit(p.SlotV, p.Slot)
 		var rec []byte
 		key := make([]byte, 49)
 		copy(key, pk)
@@ -264,21 +286,21 @@ func (r *Runner) writePriors(ctx context.Context, dir string, b *Base, priors []
 			rec = []byte{0x01, 0x02, 0x03}
 		case p.Kind == "att" && p.Fmt == "gob":
 			var buf bytes.Buffer
-			_ = gob.NewEncoder(&buf).Encode(struct{ SourceEpoch, TargetEpoch int64 }{val(p.S), val(p.T)})
+			_ = gob.NewEncoder(&buf).Encode(struct{ SourceEpoch, TargetEpoch int64 }{sVal, tVal})
 			rec = buf.Bytes()
 		case p.Kind == "prop" && p.Fmt == "gob":
 			var buf bytes.Buffer
-			_ = gob.NewEncoder(&buf).Encode(struct{ Slot int64 }{val(p.Slot)})
+			_ = gob.NewEncoder(&buf).Encode(struct{ Slot int64 }{slotVal})
 			rec = buf.Bytes()
 		case p.Kind == "att":
 			rec = make([]byte, 17)
 			rec[0] = 1
-			binary.LittleEndian.PutUint64(rec[1:9], uint64(val(p.S)))
-			binary.LittleEndian.PutUint64(rec[9:17], uint64(val(p.T)))
+			binary.LittleEndian.PutUint64(rec[1:9], uint64(sVal))
+			binary.LittleEndian.PutUint64(rec[9:17], uint64(tVal))
 		default:
 			rec = make([]byte, 9)
 			rec[0] = 1
-			binary.LittleEndian.PutUint64(rec[1:9], uint64(val(p.Slot)))
+			binary.LittleEndian.PutUint64(rec[1:9], uint64(slotVal))
 		}
 		if err := store.Store(ctx, key, rec); err != nil {
 			return err
@@ -625,6 +647,8 @@ func (r *Runner) Run(ctx context.Context, sc *Scenario) error {
 			r.runSign(ctx, st, b, op)
 		}
 	}
+	passages := r.Ctl.Passages()
+	hits := append([]string{}, r.Ctl.FaultsHit...)
 	r.Ctl.SetFaults(nil)
 	r.Ctl.SetKill(0)
 	if !sc.NoExport {
@@ -635,9 +659,8 @@ func (r *Runner) Run(ctx context.Context, sc *Scenario) error {
 			r.Log.Emit(Ev{"ev": "ExportFail", "r": "final", "err": err.Error()})
 		}
 	}
-	hits := append([]string{}, r.Ctl.FaultsHit...)
 	sort.Strings(hits)
-	r.Log.Emit(Ev{"ev": "End", "sc": sc.ID, "faults_hit": hits, "passages": r.Ctl.Passages()})
+	r.Log.Emit(Ev{"ev": "End", "sc": sc.ID, "faults_hit": hits, "passages": passages})
 	_ = st.Close(ctx)
 	st.cancel()
 	return nil
